@@ -89,6 +89,11 @@ func opsString(path []model.TOp) string {
 }
 
 func runC12(c *Ctx) {
+	// a logger that formats its arguments like any real one (the tracker logs from inside its critical sections), and
+	// a watch that ends the worker with a proof when one of its own calls into the tracker never returns
+	formatted := rig.InstallFormattingLogger()
+	defer func() { c.R.Count("log_records_formatted", formatted()) }()
+	c.WatchTrackerCalls("c12")
 	switch c.Arg("mode", "") {
 	case "closure":
 		runC12Closure(c)
